@@ -1493,16 +1493,18 @@ class NSCheck:
             if "parent" in c:
                 continue
             m = sch.models[c["id"]]
-            groups.setdefault(tuple(c["pkg"]), []).append((m.short_name, int(m.version.major), int(m.version.minor)))
+            groups.setdefault(tuple(c["pkg"]), []).append((m.short_name, int(m.version.major), int(m.version.minor), bool(m.deprecated)))
         cases, expect = [], []
         for pkg, tys in sorted(groups.items()):
             exp = {}
-            for n, ma, mi in tys:
-                exp[f"{n}_{ma}"] = max(exp.get(f"{n}_{ma}", -1), mi)   # the property: the NEWEST (integer) minor
+            for n, ma, mi, dep in tys:
+                exp[f"{n}_{ma}"] = max(exp.get(f"{n}_{ma}", -1), mi)   # the property: the NEWEST (integer) minor, deprecated or not
+                if dep:
+                    ctx.count("alias-deprecated-definitions")
             cases.append({"k": "alias", "mod": ".".join(pkg), "aliases": sorted(exp)})
             expect.append((tys, exp))
         results, _ = self.ns.run_worker(ctx, self.npdir, cases, "alias")
-        lines = ["aliases %d %s" % (len(tys), " ".join(f"{n} {ma} {mi}" for n, ma, mi in tys)) for tys, _ in expect]
+        lines = ["aliases %d %s" % (len(tys), " ".join(f"{n} {ma} {mi} {int(dep)}" for n, ma, mi, dep in tys)) for tys, _ in expect]
         for case, (tys, exp), r, ans in zip(cases, expect, results, self.ask(lines)):
             if "harness_error" in r:
                 raise RuntimeError(f"worker error on {case}: {r['harness_error']}\n{r.get('tb')}")
